@@ -100,7 +100,7 @@ fn judge(what: &str, rows: &[Row], a: &[u8], b: &[u8], ctx: &dyn Fn() -> String,
     }
 }
 
-fn case(a: &[u8], b: &[u8], algs: &[Algorithm], out: &mut Local) {
+fn case(a: &[u8], b: &[u8], algs: &[Algorithm], skip_bstr_unicode: bool, out: &mut Local) {
     let valid = std::str::from_utf8(a).is_ok() && std::str::from_utf8(b).is_ok();
     for tok in 0..TOKS.len() {
         #[cfg(not(feature = "unicode"))]
@@ -114,6 +114,9 @@ fn case(a: &[u8], b: &[u8], algs: &[Algorithm], out: &mut Local) {
             }
             for as_str in [false, true] {
                 if as_str && !valid {
+                    continue;
+                }
+                if !as_str && skip_bstr_unicode && tok >= 3 {
                     continue;
                 }
                 for fuel in [None, Some(0u64), Some(1), Some(1 + (a.len() as u64 * 7 + b.len() as u64) % 6)] {
@@ -171,7 +174,7 @@ pub fn families() -> Vec<Box<dyn Family>> {
                 if std::str::from_utf8(&a).is_err() || std::str::from_utf8(&b).is_err() {
                     out.count("pairs_with_invalid_utf8");
                 }
-                case(&a, &b, &ALGS, out);
+                case(&a, &b, &ALGS, cfg.tiny, out);
             },
         ),
         family(
@@ -230,7 +233,7 @@ pub fn families() -> Vec<Box<dyn Family>> {
                     out.nontrivial(&(&a, &b));
                 }
                 let algs: Vec<Algorithm> = if n > 150 { vec![Algorithm::Myers, Algorithm::Patience] } else { ALGS.to_vec() };
-                case(a.as_bytes(), b.as_bytes(), &algs, out);
+                case(a.as_bytes(), b.as_bytes(), &algs, cfg.tiny, out);
             },
         ),
     ]
